@@ -230,6 +230,12 @@ def run(ck):
                "differs between one push and a split push" % bad_readers, cmd_push.where(),
                ok_detail="read only by save_modified_file (unlink before re-creating, parent clean-up) and ModifiedFile's own methods")
 
+    # ---- R8: what the in-memory record of a name says is what the disk would say had the run been cut here (a deleted record counts
+    # as a missing file, a live one as an existing file): the resolution table of C16
+    from . import c16 as _c16
+    from .c18 import ck_alias as _alias
+    _c16.r3c_resolution_table(_alias(ck, "C09-R8"))
+
     # ---- R3 ------------------------------------------------------------------------------------------
     bad, abort_reach = effect_tables(ck)
     br, fi = noninterf.analyse_function(prog, cg, cmd_push, bad, abort_reach)
